@@ -64,6 +64,11 @@ pub struct C14Cfg {
     /// and second chunk); the base blocks after that are delivered compact
     #[serde(default)]
     pub midstream: bool,
+    /// the tracker starts from a checkpoint three blocks before a difficulty adjustment, on a tip
+    /// twice as hard as the network maximum; the first block of the new period really changes the
+    /// target, and the explored connects / disconnects cross it
+    #[serde(default)]
+    pub retarget: bool,
 }
 
 #[derive(Clone, Debug, PartialEq, Eq, Hash, Serialize, Deserialize)]
@@ -116,6 +121,20 @@ impl C14Model {
     /// build the world up to the start of the explored region
     fn fresh(&self) -> (World, Funded, SimChain, Vec<(T, Transaction)>) {
         let w = World::new(wcfg());
+        if self.cfg.retarget {
+            use lightning_signer::bitcoin::hashes::Hash;
+            let maxt = lightning_signer::chain::tracker::max_target(lightning_signer::bitcoin::Network::Regtest);
+            let bits = crate::chain13::shift_target(maxt, false, 1).to_compact_lossy();
+            let header = mine(lightning_signer::bitcoin::BlockHash::from_byte_array([0x42; 32]), lightning_signer::bitcoin::TxMerkleNode::from_byte_array([0x24; 32]), bits, 0);
+            let node = w.node.clone();
+            let mut t = node.get_tracker();
+            t.height = 3 * 2016 - 3;
+            t.tip = lightning_signer::chain::tracker::Headers(header, lightning_signer::bitcoin::FilterHeader::from_byte_array([7; 32]));
+            t.headers.clear();
+            node.get_persister().update_tracker(&node.get_id(), &t).expect("store the checkpoint tracker");
+            drop(t);
+            w.end_request();
+        }
         let (f, mut chain) = if self.cfg.midstream {
             let mut chain = w.new_sim_chain();
             let b = make_block(&chain.tip().0, chain.height() + 1, 0, vec![]);
@@ -293,7 +312,11 @@ impl C14Model {
         }
         // deterministic salt: a function of the block content
         let salt = names.iter().fold(17u32, |a, t| a.wrapping_mul(31).wrapping_add(*t as u32 + 1));
-        make_block(&s.chain.tip().0, s.chain.height() + 1, salt, txs)
+        if self.cfg.retarget {
+            make_block_retargeting(&s.chain.tip().0, s.chain.height() + 1, salt, txs)
+        } else {
+            make_block(&s.chain.tip().0, s.chain.height() + 1, salt, txs)
+        }
     }
 
     /// the view the property lists
@@ -347,7 +370,7 @@ impl Model for C14Model {
             self.cfg.max_block,
             if self.cfg.restart { ",restart" } else { "" },
             if self.cfg.deep { ",reorg-window-macros" } else { "" }
-        ) + if self.cfg.monitors { ",monitors" } else { "" } + if self.cfg.midstream { ",channel set up mid-stream" } else { "" }
+        ) + if self.cfg.monitors { ",monitors" } else { "" } + if self.cfg.midstream { ",channel set up mid-stream" } else { "" } + if self.cfg.retarget { ",across a difficulty adjustment" } else { "" }
     }
 
     fn init(&self) -> C14State {
@@ -547,24 +570,25 @@ pub fn configs(tier: Tier) -> Vec<C14Cfg> {
     let mut v = vec![];
     match tier {
         Tier::Quick => {
-            v.push(C14Cfg { scen: Scen::Funding, anchors: false, delivery: Delivery::Compact, max_chain: 3, max_block: 2, restart: false, deep: false, monitors: false, midstream: false });
-            v.push(C14Cfg { scen: Scen::HolderClose, anchors: false, delivery: Delivery::Compact, max_chain: 2, max_block: 2, restart: false, deep: false, monitors: false, midstream: false });
-            v.push(C14Cfg { scen: Scen::CpClose, anchors: true, delivery: Delivery::Streamed, max_chain: 2, max_block: 2, restart: false, deep: false, monitors: false, midstream: false });
-            v.push(C14Cfg { scen: Scen::Funding, anchors: false, delivery: Delivery::Compact, max_chain: 1, max_block: 1, restart: false, deep: true, monitors: false, midstream: false });
-            v.push(C14Cfg { scen: Scen::HolderHtlcsOut, anchors: false, delivery: Delivery::Compact, max_chain: 2, max_block: 2, restart: false, deep: false, monitors: false, midstream: false });
-            v.push(C14Cfg { scen: Scen::HolderClose, anchors: false, delivery: Delivery::Streamed, max_chain: 2, max_block: 2, restart: false, deep: false, monitors: false, midstream: true });
+            v.push(C14Cfg { scen: Scen::Funding, anchors: false, delivery: Delivery::Compact, max_chain: 3, max_block: 2, restart: false, deep: false, monitors: false, midstream: false, retarget: false });
+            v.push(C14Cfg { scen: Scen::HolderClose, anchors: false, delivery: Delivery::Compact, max_chain: 2, max_block: 2, restart: false, deep: false, monitors: false, midstream: false, retarget: false });
+            v.push(C14Cfg { scen: Scen::CpClose, anchors: true, delivery: Delivery::Streamed, max_chain: 2, max_block: 2, restart: false, deep: false, monitors: false, midstream: false, retarget: false });
+            v.push(C14Cfg { scen: Scen::Funding, anchors: false, delivery: Delivery::Compact, max_chain: 1, max_block: 1, restart: false, deep: true, monitors: false, midstream: false, retarget: false });
+            v.push(C14Cfg { scen: Scen::HolderHtlcsOut, anchors: false, delivery: Delivery::Compact, max_chain: 2, max_block: 2, restart: false, deep: false, monitors: false, midstream: false, retarget: false });
+            v.push(C14Cfg { scen: Scen::HolderClose, anchors: false, delivery: Delivery::Streamed, max_chain: 2, max_block: 2, restart: false, deep: false, monitors: false, midstream: true, retarget: false });
+            v.push(C14Cfg { scen: Scen::Funding, anchors: false, delivery: Delivery::Compact, max_chain: 3, max_block: 1, restart: false, deep: false, monitors: false, midstream: false, retarget: true });
         }
         Tier::Thorough => {
             for delivery in [Delivery::Compact, Delivery::Streamed] {
-                v.push(C14Cfg { scen: Scen::Funding, anchors: false, delivery, max_chain: 4, max_block: 3, restart: true, deep: false, monitors: false, midstream: false });
+                v.push(C14Cfg { scen: Scen::Funding, anchors: false, delivery, max_chain: 4, max_block: 3, restart: true, deep: false, monitors: false, midstream: false, retarget: false });
                 for anchors in [false, true] {
-                    v.push(C14Cfg { scen: Scen::HolderClose, anchors, delivery, max_chain: 3, max_block: 3, restart: false, deep: false, monitors: false, midstream: false });
-                    v.push(C14Cfg { scen: Scen::CpClose, anchors, delivery, max_chain: 3, max_block: 3, restart: false, deep: false, monitors: false, midstream: false });
+                    v.push(C14Cfg { scen: Scen::HolderClose, anchors, delivery, max_chain: 3, max_block: 3, restart: false, deep: false, monitors: false, midstream: false, retarget: false });
+                    v.push(C14Cfg { scen: Scen::CpClose, anchors, delivery, max_chain: 3, max_block: 3, restart: false, deep: false, monitors: false, midstream: false, retarget: false });
                 }
-                v.push(C14Cfg { scen: Scen::Full, anchors: false, delivery, max_chain: 3, max_block: 2, restart: false, deep: false, monitors: false, midstream: false });
-                v.push(C14Cfg { scen: Scen::HolderHtlcsOut, anchors: delivery == Delivery::Streamed, delivery, max_chain: 3, max_block: 2, restart: true, deep: false, monitors: false, midstream: false });
-                v.push(C14Cfg { scen: Scen::Funding, anchors: false, delivery, max_chain: 2, max_block: 2, restart: true, deep: true, monitors: false, midstream: false });
-                v.push(C14Cfg { scen: if delivery == Delivery::Streamed { Scen::HolderClose } else { Scen::CpClose }, anchors: delivery == Delivery::Compact, delivery: Delivery::Streamed, max_chain: 3, max_block: 2, restart: true, deep: false, monitors: false, midstream: true });
+                v.push(C14Cfg { scen: Scen::Full, anchors: false, delivery, max_chain: 3, max_block: 2, restart: false, deep: false, monitors: false, midstream: false, retarget: false });
+                v.push(C14Cfg { scen: Scen::HolderHtlcsOut, anchors: delivery == Delivery::Streamed, delivery, max_chain: 3, max_block: 2, restart: true, deep: false, monitors: false, midstream: false, retarget: false });
+                v.push(C14Cfg { scen: Scen::Funding, anchors: false, delivery, max_chain: 2, max_block: 2, restart: true, deep: true, monitors: false, midstream: false, retarget: false });
+                v.push(C14Cfg { scen: if delivery == Delivery::Streamed { Scen::HolderClose } else { Scen::CpClose }, anchors: delivery == Delivery::Compact, delivery: Delivery::Streamed, max_chain: 3, max_block: 2, restart: true, deep: false, monitors: false, midstream: true, retarget: false });
             }
         }
     }
@@ -598,13 +622,13 @@ pub fn explore_monitored(tier: Tier, wall_s: f64) -> ChainRun {
     let mut cfgs = vec![];
     match tier {
         Tier::Quick => {
-            cfgs.push(C14Cfg { scen: Scen::HolderClose, anchors: false, delivery: Delivery::Compact, max_chain: 2, max_block: 2, restart: false, deep: false, monitors: true, midstream: false });
+            cfgs.push(C14Cfg { scen: Scen::HolderClose, anchors: false, delivery: Delivery::Compact, max_chain: 2, max_block: 2, restart: false, deep: false, monitors: true, midstream: false, retarget: false });
         }
         Tier::Thorough => {
-            cfgs.push(C14Cfg { scen: Scen::Funding, anchors: false, delivery: Delivery::Compact, max_chain: 3, max_block: 2, restart: false, deep: false, monitors: true, midstream: false });
-            cfgs.push(C14Cfg { scen: Scen::HolderClose, anchors: false, delivery: Delivery::Compact, max_chain: 3, max_block: 2, restart: false, deep: false, monitors: true, midstream: false });
-            cfgs.push(C14Cfg { scen: Scen::CpClose, anchors: true, delivery: Delivery::Streamed, max_chain: 3, max_block: 2, restart: false, deep: false, monitors: true, midstream: false });
-            cfgs.push(C14Cfg { scen: Scen::Full, anchors: false, delivery: Delivery::Compact, max_chain: 2, max_block: 2, restart: false, deep: false, monitors: true, midstream: false });
+            cfgs.push(C14Cfg { scen: Scen::Funding, anchors: false, delivery: Delivery::Compact, max_chain: 3, max_block: 2, restart: false, deep: false, monitors: true, midstream: false, retarget: false });
+            cfgs.push(C14Cfg { scen: Scen::HolderClose, anchors: false, delivery: Delivery::Compact, max_chain: 3, max_block: 2, restart: false, deep: false, monitors: true, midstream: false, retarget: false });
+            cfgs.push(C14Cfg { scen: Scen::CpClose, anchors: true, delivery: Delivery::Streamed, max_chain: 3, max_block: 2, restart: false, deep: false, monitors: true, midstream: false, retarget: false });
+            cfgs.push(C14Cfg { scen: Scen::Full, anchors: false, delivery: Delivery::Compact, max_chain: 2, max_block: 2, restart: false, deep: false, monitors: true, midstream: false, retarget: false });
         }
     }
     let mut stats = BfsStats { closed: true, ..Default::default() };
